@@ -323,8 +323,14 @@ def _resolve_part(g, case, res):
     setup = case["setup"]
     env = Env(g, setup)
     seen = set()
-    for kind in ("precalc", "noprecalc", "explicit_result"):
-        if kind == "precalc":
+    for kind in ("precalc", "noprecalc", "explicit_result", "sharing"):
+        other = None
+        if kind == "sharing":
+            # a second variable shares the BC object and refreshes first after every edit; this variable is then
+            # refreshed explicitly (apply_BCs) before it is solved: it must be handed the current boundary equations
+            phi = pf.CellVariable(g.mesh, U.generic_array(g.dims, tag=351, signed=True), make_bc(g, setup))
+            other = pf.CellVariable(g.mesh, U.generic_array(g.dims, tag=355, signed=True), phi.BCs)
+        elif kind == "precalc":
             phi = pf.CellVariable(g.mesh, U.generic_array(g.dims, tag=351, signed=True), make_bc(g, setup))
         elif kind == "noprecalc":
             phi = pf.CellVariable(g.mesh, U.generic_array(g.dims, tag=351, signed=True), make_bc(g, setup), BCsTerm_precalc=False)
@@ -342,6 +348,9 @@ def _resolve_part(g, case, res):
                         bf.c = np.array(bf._c) * 1.5 + 0.25 * rnd
                         if rnd == 2:
                             bf.b = np.array(bf._b) + (4.0 if hi else -4.0)
+            if other is not None:
+                other.apply_BCs()
+                phi.apply_BCs()
             terms = [env.term("base"), env.term("Md"), env.term("v"), pf.transientTerm(phi, 0.25, 1.0)]
             Mbc, rbc = pf.boundaryConditionsTerm(phi.BCs)
             Mref, rref = assemble(Mbc, rbc, terms)
